@@ -40,7 +40,7 @@ from ttconv.isd import ISD
 from ttconv.vtt.cue import VttCue
 from ttconv.vtt.css_class import CssClass
 from ttconv.style_properties import DirectionType, ExtentType, PositionType, StyleProperties, FontStyleType, NamedColors, \
-                                    FontWeightType, TextDecorationType, DisplayAlignType, TextAlignType
+                                    FontWeightType, TextDecorationType, DisplayAlignType, TextAlignType, VisibilityType
 
 LOGGER = logging.getLogger(__name__)
 
@@ -75,7 +75,8 @@ class VttContext:
         # Every values: `TextDecorationType.underline` is a field default (None), which matches no value
       ],
       StyleProperties.Color: [],
-      StyleProperties.BackgroundColor: []
+      StyleProperties.BackgroundColor: [],
+      StyleProperties.Visibility: []
     }
 
     if self._config.line_position:
@@ -161,7 +162,8 @@ class VttContext:
     if isinstance(element, model.Br):
       self._paragraphs[-1].append_text("\n")
 
-    if isinstance(element, model.Text):
+    if isinstance(element, model.Text) and element.parent().get_style(StyleProperties.Visibility) is not VisibilityType.hidden:
+      # text hidden by tts:visibility is not part of the cue
       # escape the characters that are significant in WebVTT cue text (this also prevents "-->" from appearing in a cue)
       self._paragraphs[-1].append_text(
         element.get_text().replace("&", "&amp;").replace("<", "&lt;").replace(">", "&gt;")
